@@ -149,6 +149,9 @@ def malformed(ctx, pop, classes):
                 cases.append((f"delete-{m}", d))
             for v in RETYPE[:-1]:
                 cases.append((f"retype-{m}", dict(base, **{m: v})))
+            # present but empty: still a `str`, decodes to nothing - never a usable value (nor a reason to treat the member as absent)
+            if not (key.key_type == "oct" and m == "k") and isinstance(base[m], str) and m in {"RSA": ["n", "e", "d", "p", "q", "dp", "dq", "qi"], "EC": ["crv", "x", "y", "d"], "OKP": ["crv", "x", "d"]}.get(key.key_type, []):
+                cases.append((f"empty-{m}", dict(base, **{m: ""})))       # (an empty oct "k" is a valid, empty, key)
             if m != "crv":
                 cases.append((f"undecodable-{m}", dict(base, **{m: base[m][:-1] + "*"})))
                 cases.append((f"undecodable-{m}", dict(base, **{m: base[m][:1] + " " + base[m][1:]})))
